@@ -1749,6 +1749,13 @@ func runC12(e *Env) {
 		return
 	}
 
+	if (len(e.Args) > 0 && e.Args[0] == "wire") || os.Getenv("VERIF_C12_ONLY") == "wire" { // developer aid: the wire-delivery part alone
+		wst := x.wire(vk.NewRng(e.Seed^vk.HashStr("c12wire"+e.Tier)), e.Pick(72, 720))
+		vk.Logf("wire delivery: %+v", *wst)
+		e.R.Require(wst.Cases > 0, "wire delivery ran nothing")
+		return
+	}
+
 	rng := vk.NewRng(e.Seed ^ vk.HashStr("c12"+e.Tier))
 	t0 := time.Now()
 
@@ -1943,6 +1950,16 @@ func runC12(e *Env) {
 	// 3f. the real raw multi-connection data phase over fake connections (c12_dumb.go)
 	dst := x.realDumb(vk.NewRng(e.Seed^vk.HashStr("c12dumb"+e.Tier)), e.Pick(2, 10))
 	vk.Logf("real-dumb: %d cases, %d bytes through the real data pump (%.1fs)", dst.Cases, dst.Bytes, time.Since(t0).Seconds())
+	// 3g. bursts of envelopes through the real wsclient.Conn.ReadLoop behind a held handler call (c12_wire.go)
+	nWire := 72
+	if e.Thorough() {
+		nWire = 720
+	}
+	if e.Race {
+		nWire /= 3
+	}
+	wst := x.wire(vk.NewRng(e.Seed^vk.HashStr("c12wire"+e.Tier)), nWire)
+	vk.Logf("wire delivery: %d cases, %d bursts, %d envelopes, %d bursts written completely behind a held handler call (%.1fs)", wst.Cases, wst.Bursts, wst.Envelopes, wst.BehindHeld, time.Since(t0).Seconds())
 	vk.Logf("benchmark mode: %d histories (%v), ticks %v; %d stress streams, %d ticks (%.1fs)", bst.Histories, bst.ByMode, x.benchTicks, bsst.Streams, bsst.BenchTicks, time.Since(t0).Seconds())
 
 	// 4. refuting prefixes: shrink, key by the minimal shape, report
@@ -2056,7 +2073,7 @@ func runC12(e *Env) {
 		bs = append(bs, fmt.Sprintf("max-receivers=%d: every history of length %d (and so every shorter one)", b.Max, b.Len))
 	}
 	e.R.SetExtra("exhaustive_bound", strings.Join(bs, "; ")+"; over events J A L K F S T, receivers {a,b,c} up to renaming, membership-consistent; a history is cut at its first refuting prefix and that prefix is not extended")
-	e.R.Rule = "histories over receivers {a,b,c} of J(oin) A(ccept, repeatable) L(eave) K(transfer returns nil) F(transfer returns error) S/s(transfer whose context was cancelled returns late with error/nil) T(clock +6 min and one idle-cleanup tick, TTL 10 min), membership-consistent (join only for non-members, accept/leave only for members, returns only for running transfers), for max-receivers 1..3, each on a fresh real SnapshotSender driven through handleEnvelope/cleanup with a stub transfer function and a real wsclient.Conn to a recording endpoint; after EVERY event: quiescence by sender.runTransfer.exit hit count + marker round trip + stub start count, then comparison with the reference model. Exhaustive part (" + strings.Join(bs, "; ") + "): every such history up to receiver renaming; a history is cut at its first refuting prefix, which is not extended. Random part: weighted random walks (classes free / avoid-known / duplicate-join, the last adds R = join of a receiver that is already a member). A history counts as distinct non-trivial when it reached quiescence after every executed event and started >= 1 transfer; distinct by (max, event string up to the cut, stub mode). Stub modes: told (default; no connection closer, returns when told), closer / closer-mixed (registers a closer through setTransferCloser before reporting its start), real-like (closer + returns by itself once cancelled); the enumeration is repeated one event shorter in modes closer and real-like. Concurrent part: histories over up to five receivers whose steps are single events or bursts (<= 1 envelope, <= 1 cleanup tick, transfer returns; one goroutine each, released together), random and a directed full-house family; a burst counts when it reached quiescence, distinct by (max, burst shape = event letters with the receiver's role before the burst, receivers waiting 0/1/2+, stub mode). Stress part: streams of back-to-back envelopes against self-finishing transfers, distinct by (max, stream seed). Benchmark configuration: the same sequential histories (random walks + directed probes) and stress streams against a sender built with benchmark = true whose stubs create their receiver's progress row; a benchmark tick + renderer frame is started at the sender's clock reads (sequential) or runs freely (stress); distinct as above with +benchmark in the stub mode / stream key. Real-dumb part: max-receivers 1-2 served receivers + 1-2 waiting, the real sendDumbDataMulti over 2-4 gated fake connections per receiver, one part failing (open-stream / header-write / first / later data block) while its siblings are mid-transfer; distinct by (max, connections, failure kind, waiting, failing receiver, failing part, blocks per part); a case counts when every receiver's transfer function has returned and the final state was read. Every call into the sender is watched (c12_watch.go)."
+	e.R.Rule = "histories over receivers {a,b,c} of J(oin) A(ccept, repeatable) L(eave) K(transfer returns nil) F(transfer returns error) S/s(transfer whose context was cancelled returns late with error/nil) T(clock +6 min and one idle-cleanup tick, TTL 10 min), membership-consistent (join only for non-members, accept/leave only for members, returns only for running transfers), for max-receivers 1..3, each on a fresh real SnapshotSender driven through handleEnvelope/cleanup with a stub transfer function and a real wsclient.Conn to a recording endpoint; after EVERY event: quiescence by sender.runTransfer.exit hit count + marker round trip + stub start count, then comparison with the reference model. Exhaustive part (" + strings.Join(bs, "; ") + "): every such history up to receiver renaming; a history is cut at its first refuting prefix, which is not extended. Random part: weighted random walks (classes free / avoid-known / duplicate-join, the last adds R = join of a receiver that is already a member). A history counts as distinct non-trivial when it reached quiescence after every executed event and started >= 1 transfer; distinct by (max, event string up to the cut, stub mode). Stub modes: told (default; no connection closer, returns when told), closer / closer-mixed (registers a closer through setTransferCloser before reporting its start), real-like (closer + returns by itself once cancelled); the enumeration is repeated one event shorter in modes closer and real-like. Concurrent part: histories over up to five receivers whose steps are single events or bursts (<= 1 envelope, <= 1 cleanup tick, transfer returns; one goroutine each, released together), random and a directed full-house family; a burst counts when it reached quiescence, distinct by (max, burst shape = event letters with the receiver's role before the burst, receivers waiting 0/1/2+, stub mode). Stress part: streams of back-to-back envelopes against self-finishing transfers, distinct by (max, stream seed). Benchmark configuration: the same sequential histories (random walks + directed probes) and stress streams against a sender built with benchmark = true whose stubs create their receiver's progress row; a benchmark tick + renderer frame is started at the sender's clock reads (sequential) or runs freely (stress); distinct as above with +benchmark in the stub mode / stream key. Real-dumb part: max-receivers 1-2 served receivers + 1-2 waiting, the real sendDumbDataMulti over 2-4 gated fake connections per receiver, one part failing (open-stream / header-write / first / later data block) while its siblings are mid-transfer; distinct by (max, connections, failure kind, waiting, failing receiver, failing part, blocks per part); a case counts when every receiver's transfer function has returned and the final state was read. Wire-delivery part: the host wired as RunSnapshotSender wires it (real wsclient.Conn, conn.ReadLoop with a callback entering handleEnvelope); the endpoint writes bursts of 12..264 envelopes (join / accept / repeated accept / ICE candidate message / leave; receivers join once and never come back) while the handler call for the first envelope of the burst is held; judged at quiescence after each burst and after each step of the final drain against the state the WRITTEN order gives; families accept-train, accept-then-leave, random; distinct by (family, max, burst sizes, case seed). Every call into the sender is watched (c12_watch.go)."
 	e.R.SetExtra("histories_run", atomic.LoadInt64(&x.runs))
 	e.R.SetExtra("events_executed_and_checked", atomic.LoadInt64(&x.events))
 	e.R.SetExtra("stub_transfer_starts_observed", atomic.LoadInt64(&x.starts))
@@ -2106,6 +2123,13 @@ func runC12(e *Env) {
 	e.R.SetExtra("benchmark_mode_stress_streams_refuted_by_key", bsst.FailCount)
 	e.R.SetExtra("real_dumb_cases_by_class", dst.ByClass)
 	e.R.SetExtra("real_dumb", map[string]int64{"cases": dst.Cases, "bytes_written_by_the_real_data_pump_on_fake_connections": dst.Bytes, "cases_in_which_the_next_queued_receiver_was_started_after_a_part_failure": dst.NextStarted})
+	e.R.SetExtra("wire_delivery", map[string]int64{"cases": wst.Cases, "bursts": wst.Bursts, "envelopes_written_by_the_endpoint_and_handled": wst.Envelopes,
+		"bursts_completely_written_while_the_first_handler_call_was_held": wst.BehindHeld, "handler_calls_begun_while_an_earlier_one_was_held": wst.BegunWhileHeld,
+		"max_handler_calls_in_flight": int64(wst.MaxInCall), "transfer_starts": wst.Starts, "leaves_of_a_waiting_receiver_inside_a_burst": wst.LeavesOfWaiting,
+		"leaves_of_a_served_receiver_inside_a_burst": wst.LeavesOfServed, "drain_steps_checked": wst.DrainSteps, "receivers_waiting_after_the_bursts": wst.Waiting})
+	e.R.SetExtra("wire_delivery_cases_by_family", wst.ByFamily)
+	e.R.SetExtra("wire_delivery_bursts_by_size", wst.BySize)
+	e.R.SetExtra("wire_delivery_cases_refuted_by_key", wst.FailCount)
 	e.R.SetExtra("watched_calls_into_the_sender", atomic.LoadInt64(&c12WatchedCalls))
 	e.R.SetExtra("watched_calls_canary_runs", atomic.LoadInt64(&c12CanaryRuns))
 	e.R.SetExtra("senders_that_stopped_handling_events", atomic.LoadInt64(&c12StuckCount))
@@ -2151,6 +2175,13 @@ func runC12(e *Env) {
 		e.R.Require(bst.ByMode[md] > 0, "benchmark mode did not run stub mode "+md)
 	}
 	e.R.Require(bsst.Streams >= int64(nBenchStreams*3/4) && bsst.BenchTicks >= bsst.Streams*100 && bsst.LeavesOfRun > 0, fmt.Sprintf("benchmark-mode stress: %d of %d streams reached a verdict, %d benchmark ticks", bsst.Streams, nBenchStreams, bsst.BenchTicks))
+	e.R.Require(wst.Cases >= int64(nWire*3/4) && wst.ByFamily["accept-train"] > 0 && wst.ByFamily["accept-then-leave"] > 0 && wst.ByFamily["random"] >= nWire/2,
+		fmt.Sprintf("wire delivery: only %d cases reached a verdict (by family %v)", wst.Cases, wst.ByFamily))
+	e.R.Require(wst.BehindHeld*2 >= wst.Bursts && wst.BehindHeld > 0, fmt.Sprintf("wire delivery: only %d of %d bursts were written completely while the first handler call was held", wst.BehindHeld, wst.Bursts))
+	for _, sc := range []string{"<=16", "17-64", "65-128", ">128"} {
+		e.R.Require(wst.BySize[sc] > 0, "wire delivery: no burst of size "+sc+" envelopes")
+	}
+	e.R.Require(wst.LeavesOfWaiting > 0 && wst.LeavesOfServed > 0 && wst.Waiting > 0 && wst.DrainSteps > 0, "wire delivery: no leave of a waiting / of a served receiver inside a burst, or nobody waiting after the bursts, or no drain")
 	for _, md := range []string{"told", "closer", "real-like"} {
 		e.R.Require(cst.ByFamily["full-house/stub="+md] > 0 && cst.ByFamily["random/stub="+md] > 0, "concurrent part did not run stub mode "+md)
 	}
